@@ -8,6 +8,7 @@ TemplateError.
 """
 import copy
 
+import numpy as np
 import sympy as sym
 
 from .. import common, content, gen
@@ -24,7 +25,7 @@ BUDGET = {"quick": 1200, "thorough": 16000}
 MIN_NONTRIVIAL = {"quick": 600, "thorough": 6000}
 REQUIRED_FUNCTIONS = ["utils.py:match_template", "utils.py:to_DiGraph", "program.py:BlackbirdProgram.__call__"]
 FUNCTIONS = REQUIRED_FUNCTIONS + ["utils.py:match_template.<locals>.node_match"]
-REQUIRED_TAGS = ["reordered", "repeated-parameter", "form:bare", "form:negated", "form:affine", "form:divided", "neg:gate", "neg:modes", "neg:modes-permuted", "neg:modes-same-digits", "neg:order", "neg:version", "neg:version-same-value", "neg:target", "edit-in-place-after-match", "second-instantiation-after-match", "value:small-or-large", "tdm", "tdm:repeated-parameter"]
+REQUIRED_TAGS = ["reordered", "repeated-parameter", "form:bare", "form:negated", "form:affine", "form:divided", "neg:gate", "neg:modes", "neg:modes-permuted", "neg:modes-same-digits", "neg:order", "neg:version", "neg:version-same-value", "neg:target", "edit-in-place-after-match", "second-instantiation-after-match", "value:small-or-large", "tdm", "tdm:repeated-parameter", "typed-or-complex-values"]
 ASSUMPTIONS = ["per-mode order = order of operations sharing a mode (register arguments are not generated here)", "returned values are compared through the arguments they reproduce; allowed difference per argument a*p+b: 1e-9*|a|*max over the occurrences a_j*p+b_j of p of (|a_j p|+|b_j|)/|a_j|"]
 
 
@@ -139,7 +140,8 @@ def beyond_rounding(T, true_prog, back_prog, vals):
             (s_,) = targ.free_symbols
             if str(s_) not in vals:
                 continue
-            sub = {s_: sym.Float(vals[str(s_)], 17)}
+            v0 = complex(vals[str(s_)])
+            sub = {s_: sym.Float(v0.real, 17) + sym.I * sym.Float(v0.imag, 17) if v0.imag else sym.Float(v0.real, 17)}
             try:
                 mag = sum(abs(complex(t.xreplace(sub))) for t in sym.Add.make_args(sym.expand(targ)))
                 slope = abs(complex(sym.diff(targ, s_).xreplace(sub)))
@@ -185,16 +187,16 @@ def match_round(ctx, T, P, Q, vals, cfg, w, what):
         return False
     far = beyond_rounding(T, P, back, vals)
     if far:
-        ctx.violation("returned-values-wrong:beyond-rounding", "%s: returned %s for true %s: %s" % (what, {k_: float(res[k_]) for k_ in vals}, vals, far), w)
+        ctx.violation("returned-values-wrong:beyond-rounding", "%s: returned %s for true %s: %s" % (what, {k_: complex(res[k_]) for k_ in vals}, vals, far), w)
         return False
     d = content.diff_real(content.program_content(P), content.program_content(back), cfg)
     if d:
-        ctx.violation("returned-values-wrong:" + common.diff_key(d), "%s: returned %s for true %s: %s" % (what, {k_: float(res[k_]) for k_ in vals}, vals, common.diff_text(d, 2)), w)
+        ctx.violation("returned-values-wrong:" + common.diff_key(d), "%s: returned %s for true %s: %s" % (what, {k_: complex(res[k_]) for k_ in vals}, vals, common.diff_text(d, 2)), w)
         return False
     return True
 
 
-def check_case(ctx, text, vals, tags, witness=None):
+def check_case(ctx, text, vals, tags, witness=None, typed=None):
     from blackbird.utils import TemplateError, match_template
 
     witness = witness or {"text": text, "vals": vals}
@@ -243,6 +245,34 @@ def check_case(ctx, text, vals, tags, witness=None):
         cfg2 = content.Cfg(numbers="close", rtol=1e-9, atol=1e-9 * scale2, seed="C17")
         ctx.case(text + repr(sorted(vals2.items())) + "second", n >= 3, tags=sorted(set(tags) | {"second-instantiation-after-match"}))
         if not match_round(ctx, T, P2, P2, vals2, cfg2, dict(witness, second_values=vals2), "a second instantiation made after the first match"):
+            return
+    # a third instantiation with NumPy-typed and complex values (what arithmetic in a script, or a caller working with
+    # NumPy, delivers): the returned values must reproduce these arguments too
+    rng3 = ctx.rng("typed", text)
+    vals3 = {}
+    for k_, v_ in vals.items():
+        c_ = rng3.random()
+        if c_ < 0.3:
+            vals3[k_] = np.float64(v_)
+        elif c_ < 0.55:
+            vals3[k_] = np.complex128(complex(v_, rng3.choice([-1, 1]) * rng3.uniform(0.2, 2.0) * (abs(v_) or 1.0)))
+        elif c_ < 0.75:
+            vals3[k_] = complex(v_, rng3.choice([-0.5, 0.25, 2.0]) * (abs(v_) or 1.0))
+        elif c_ < 0.9 and abs(v_) >= 1 and abs(v_) < 1e6:
+            vals3[k_] = np.int64(int(v_))
+        else:
+            vals3[k_] = float(v_) * 1.5
+    if typed:
+        vals3 = {k_: complex(*v_) for k_, v_ in typed.items()}     # corpus witness with fixed complex values
+    try:
+        P3 = T(**vals3)
+    except Exception:
+        P3 = None
+    if P3 is not None:
+        scale3 = max([1.0] + [abs(v) for v in vals3.values()])
+        cfg3 = content.Cfg(numbers="close", rtol=1e-9, atol=1e-9 * scale3, seed="C17")
+        ctx.case(text + repr(sorted((k_, complex(v_)) for k_, v_ in vals3.items())) + "typed", n >= 3, tags=sorted(set(tags) | {"typed-or-complex-values"}))
+        if not match_round(ctx, T, P3, P3, vals3, cfg3, dict(witness, typed_values={k_: repr(v_) for k_, v_ in vals3.items()}), "an instantiation with NumPy-typed / complex values"):
             return
     # one structural edit
     edits = ["gate", "modes", "version", "target"]
@@ -414,7 +444,7 @@ def run(ctx):
     g = common.grammar()
     if ctx.worker == 0:
         for e in common.corpus(ID):
-            check_case(ctx, e["text"], e["vals"], set(e.get("tags", [])))
+            check_case(ctx, e["text"], e["vals"], set(e.get("tags", [])), typed=e.get("typed"))
     n = ctx.share(BUDGET[ctx.tier])
     for i in range(n):
         rng = ctx.rng(i)
